@@ -9,14 +9,20 @@ SPEC = dict(
     rule="two real QXmppClients with real QXmppTransferManagers wired back to back in-process (sent stanzas captured from the "
          "logger, stamped with `from`, injected into the peer's handlePacketReceived); an interposer holds every XEP-0047 "
          "<open/>/<data/>/<close/> the sender emits and applies one channel op per line: deliver | drop (forged ack) | dup | swap | "
-         "flip <bit> | eclose | wsid | wsender | inj <sender> <sid> <stanza> | run <n>. Every line compares the receiver's replies "
-         "(result / error condition), state, error, byte count and content digest of the receiver's device, finished()/error() signal "
+         "flip <bit> | eclose | wsid | wsender [other account | other resource of the same account | bare JID | case variant | look-alike "
+         "domain] | inj <sender> <sid> <stanza> | run <n>. The receiver writes into a QBuffer or into a device that takes <= k bytes per "
+         "write (k in 1,7,1000), runs full after m bytes (then takes 0) or fails (-1) at byte m. Every line compares the receiver's replies "
+         "(result / error condition), state, error, byte count and content digest of WHAT THE DEVICE HOLDS, the job's own byte counter, finished()/error() signal "
          "counts of both jobs, bytes read by the sender and the pending stanza (kind, wire seq, payload) with the Lean model. Cases: "
          "sizes {0,1,b-1,b,b+1,3b+2} x block sizes {1,2,16,(4096)} x contents {random, zero, 0xFF} x with/without announced hash: the "
          "honest run plus every single fault at every position (open, each block, close); EXHAUSTIVE op sequences to depth 3 (quick) / "
-         "4 (thorough) over a 9-symbol alphabet on a 2-block file; block-size negotiation cases; seeded random sequences over the whole "
+         "4 (thorough) over a 9-symbol alphabet on a 2-block file; every receiver device x sizes x block sizes x hash on/off, honest and "
+         "with every fault; impersonation: at every position an <open/>/<data/>(expected seq, same length)/<close/> with the right sid "
+         "from each of the 5 other-JID variants (oracle: the transfer must end as the honest one); block-size negotiation cases; seeded random sequences over the whole "
          "alphabet; 65537 blocks of size 1 first (corpus: 16-bit sequence wrap, fixed by 49cbe2e, must succeed), 65536 blocks, duplicate / lost block right after the wrap, two wraps in thorough; SOCKS5 receive path on 127.0.0.1 "
-         "(real QXmppSocksServer/Client): honest in 1 and 2 chunks, truncated, altered, overlong. A sequence is non-trivial when it "
+         "(real QXmppSocksServer/Client): honest in 1 and 2 chunks, truncated, altered, overlong, and the short-writing / full / failing "
+         "devices. Oracles (property text only): success => the bytes the device HOLDS equal the bytes sent; no fault (foreign stanzas "
+         "allowed) and a device that took everything => both succeed; one fault on a data block => receiver not success. A sequence is non-trivial when it "
          "yields >= 2 distinct observations.",
     trusted_base=[
         "Lean 4.33.0 kernel; axioms per theorem listed under coverage.theorems (subset of propext, Classical.choice, Quot.sound)",
@@ -39,6 +45,9 @@ SPEC = dict(
         "flight; SOCKS5 stream-host / proxy negotiation is outside the model; the SOCKS5 sending job is not exercised",
         "the IBB block size is not settable through the public API (fixed 4096): the harness writes QXmppTransferManagerPrivate::"
         "ibbBlockSize (first member; layout guarded at start-up and by the <open/> the real sender emits)",
+        "QXmppTransferIncomingJob::writeData calls QIODevice::write once per block (no retry, return value ignored by the callers): "
+        "the model keeps device content (acc), hash input (fed) and counter apart; the theorems are about acc. With a device that "
+        "may take less than offered, success_implies_identical_bytes needs the true size announced (the hash covers offered bytes)",
         "`drop` = block lost while the sender is told it arrived (forged result); a block lost with NO answer stalls both jobs forever "
         "(the code has no IBB timeout): never success, but no error is reported either (declared, not counted as a finding)",
         "a duplicated block is answered with <unexpected-request/>, not written, and the transfer completes with identical bytes "
